@@ -141,6 +141,9 @@ type ServerOpts struct {
 	Threshold int
 	Mode      *websocket.CompressionMode
 	Prefill   bool // see Recorder.Prefill
+	// RawExt, if not empty, is sent as the Sec-WebSocket-Extensions request header instead of the offer derived
+	// from Params (for offers the server must decline).
+	RawExt string
 }
 
 // UpgradeRequest builds a valid upgrade request.
@@ -163,6 +166,9 @@ func Server(t net.Conn, o ServerOpts) (*websocket.Conn, *Recorder, error) {
 	}
 	if o.Mode != nil {
 		mode = *o.Mode
+	}
+	if o.RawExt != "" {
+		r.Header.Set("Sec-WebSocket-Extensions", o.RawExt)
 	}
 	rec := &Recorder{Conn: t, Prefill: o.Prefill}
 	c, err := websocket.Accept(rec, r, &websocket.AcceptOptions{
